@@ -97,3 +97,25 @@ Theorem C11_end_to_end_union_any_layout : forall D has_ns hcode rm rn rr re_ok n
             union_result D has_ns hcode rm rn rr q abs1 steps1 abs2 steps2.
 Proof. exact C11_union_end_to_end. Qed.
 Print Assumptions C11_end_to_end_union_any_layout.
+
+(* ------------------------------------------------------------------ *)
+(* END TO END, the SEQUENCE form  P/(A, B)  (A, B predicate-free steps of any axis, P a predicate-free
+   path): every admissible white-space layout compiles to the same union query, and Select returns,
+   each once, exactly the nodes that step A or step B reaches from a node of P. *)
+From XP.Proofs Require Import ScanTokens EndToEndPred EndToEndReject EndToEndSeq.
+
+Theorem C11_end_to_end_sequence_form : forall D has_ns hcode rm rn rr,
+  hash_ok hcode (all_nodes D) ->
+  forall re_ok ns p abs steps sa sb xa xb,
+  path_syntax p -> steps_of p = (abs, steps) -> step_of sa = Some xa -> step_of sb = Some xb ->
+  toks_ok (seq_text_toks p sa sb) -> List.length steps + 2 < max_build_depth ->
+  exists q,
+    (forall L, lay_ok L = true -> map snd L = seq_text_toks p sa sb ++ [TEOF] ->
+       compile re_ok (string_of_list (render L)) ns = Ok q) /\
+    compile re_ok (print_toks (seq_text_toks p sa sb)) ns = Ok q /\
+    forall c, valid D c = true ->
+    exists l, sel D has_ns hcode rm rn rr q c = Val l /\ NoDup (nodes_of l) /\
+              (forall n, In n (nodes_of l) -> valid D n = true) /\
+              forall n, In n (nodes_of l) <-> seq_den D has_ns abs steps xa xb c n.
+Proof. exact C11_seq_end_to_end. Qed.
+Print Assumptions C11_end_to_end_sequence_form.
